@@ -10,9 +10,9 @@ d=sys.argv[1]
 objs=build.build_lib('asan', d)
 build.build_harness('asan', d, 'probe', ['../findings/probe.c'], objs)
 P
-for n in 1 2 3 4 5 6 7 8 9 10 11 12 13; do
+for n in 1 2 3 4 5 6 7 8 9 10 11 12 13 14; do
   mkdir -p $D/w$n
-  ASAN_OPTIONS=detect_leaks=1:exitcode=86 UBSAN_OPTIONS=print_stacktrace=1 timeout 60 $D/probe f$n $D/w$n > $D/out$n.txt 2>&1
+  ASAN_OPTIONS=detect_leaks=1:exitcode=86 UBSAN_OPTIONS=print_stacktrace=1 timeout 300 $D/probe f$n $D/w$n > $D/out$n.txt 2>&1
   rc=$?
   echo "F$n rc=$rc $(grep -v '^ ' $D/out$n.txt | grep -E 'expected|entries|fds|ERROR|Assertion|SUMMARY|survived|->' | head -3 | tr '\n' '|')"
 done
